@@ -6,6 +6,12 @@
 // flipped, wrong length, bits not matching S, tampered content).
 // Oracle: VerifySignature == nil  =>  (bitmap bits < n) == S  and  |S| >= floor(2n/3)+1  and  leader in S
 // (padding bits never count). Non-vacuity: an honest quorum with the exact bitmap must be accepted.
+// Extensions: a few large groups (n in 63, 257, 300, 400) with signers and bits above member index 255; and
+// in a third of the small cases the REAL fallback.NewFallbackHeaderValidator (headers pool stub / chain
+// storer mock holding the previous meta header) with start-of-epoch meta headers at round gaps
+// {0,1,40,49,50,51,1000}, previous headers with a HIGHER round, and unresolvable previous headers; there the
+// threshold is floor(n/2)+1 exactly when the documented rule holds (metachain, start of epoch, previous
+// header known, round - previous round >= 50), else floor(2n/3)+1.
 package main
 
 import (
@@ -23,20 +29,26 @@ import (
 	"github.com/ElrondNetwork/elrond-go/crypto/signing/multisig"
 	"github.com/ElrondNetwork/elrond-go/data"
 	"github.com/ElrondNetwork/elrond-go/data/block"
+	"github.com/ElrondNetwork/elrond-go/dataRetriever"
+	"github.com/ElrondNetwork/elrond-go/fallback"
 	"github.com/ElrondNetwork/elrond-go/hashing/blake2b"
 	"github.com/ElrondNetwork/elrond-go/marshal"
+	"github.com/ElrondNetwork/elrond-go/process"
 	"github.com/ElrondNetwork/elrond-go/process/headerCheck"
 	"github.com/ElrondNetwork/elrond-go/process/mock"
 	"github.com/ElrondNetwork/elrond-go/testscommon"
+	"github.com/ElrondNetwork/elrond-go/testscommon/genericMocks"
 	"verif/internal/vk"
 )
 
-const poolSize = 26
+const poolSize = 400 // small groups draw from the first smallPool keys
+const smallPool = 26
 
 type keyPair struct {
-	sk  crypto.PrivateKey
-	pk  string
-	idx int
+	sk    crypto.PrivateKey
+	pk    string
+	pkObj crypto.PublicKey
+	idx   int
 }
 
 func mkPool(kg crypto.KeyGenerator, seed uint64) []keyPair {
@@ -51,11 +63,12 @@ func mkPool(kg crypto.KeyGenerator, seed uint64) []keyPair {
 		if err != nil {
 			continue
 		}
-		pkb, err := sk.GeneratePublic().ToByteArray()
+		pub := sk.GeneratePublic()
+		pkb, err := pub.ToByteArray()
 		if err != nil {
 			continue
 		}
-		pool = append(pool, keyPair{sk: sk, pk: string(pkb), idx: len(pool)})
+		pool = append(pool, keyPair{sk: sk, pk: string(pkb), pkObj: pub, idx: len(pool)})
 	}
 	return pool
 }
@@ -157,7 +170,7 @@ func mkHeader(rng *vk.Rand, meta bool) data.HeaderHandler {
 		PrevHash: rng.Bytes(32), PrevRandSeed: rng.Bytes(48), RandSeed: rng.Bytes(48), RootHash: rng.Bytes(32),
 		TxCount: uint32(rng.Intn(1000)), ChainID: []byte("1"), SoftwareVersion: []byte("v1"),
 		AccumulatedFees: big.NewInt(int64(rng.Intn(1e6))), DeveloperFees: big.NewInt(int64(rng.Intn(1e6))),
-		LeaderSignature: rng.Bytes(48),
+		LeaderSignature:  rng.Bytes(48),
 		MiniBlockHeaders: []block.MiniBlockHeader{{Hash: rng.Bytes(32), SenderShardID: 0, ReceiverShardID: 1, TxCount: 3}},
 	}
 }
@@ -168,13 +181,24 @@ type variant struct {
 	tampered bool
 }
 
+type caseSpec struct {
+	n     int
+	large bool // n > 256: reduced, targeted variant matrix
+}
+
+type prevScenario struct {
+	kind    string // gap / higher / missing / none
+	delta   int64  // header round - previous round
+	inStore bool
+}
+
 func main() {
 	logger.SetLogLevel("*:NONE")
 	r := vk.Start("C17")
-	r.Rule("per case: consensus group of n in 1..21 real BLS keys (all n covered round-robin, so non-multiples of 8 dominate), shard or meta header with random content; five signer-set kinds (honest quorum, exactly threshold, threshold-1 with leader, quorum without leader, random) x bitmap kinds (exact, some/all padding bits, threshold-k signers + k padding bits, leader bit flipped, extra byte zero/non-zero, truncated, extra non-signer bit, dropped signer bit, tampered header). Non-trivial = a verification that reached the real VerifySignature with a valid aggregated BLS signature; shape = (n, signer kind, bitmap kind, verdict).")
+	r.Rule("per case: consensus group of n real BLS keys (small cases: n in 1..21 round-robin; a few large cases n in {400,300,257,63}), shard or meta header with random content; signer-set kinds (honest quorum, exactly threshold, threshold-1 with leader, quorum without leader, random, threshold-k, floor(n/2)+1 and floor(n/2) with leader; large groups also: below-threshold signers among members < 256, and a below-threshold set closed under index mod 256) x bitmap kinds (exact, some/all padding bits, padding up to the threshold, leader bit flipped, extra byte zero/non-zero, truncated, extra non-signer bit, dropped signer bit, tampered header; large groups: all bits >= 256 set on top of the low signers, dropped/added bit >= 256). One third of the small cases use the real fallback header validator with start-of-epoch meta headers and previous headers at round gaps {0,1,40,49,50,51,1000}, higher rounds, or missing. Non-trivial = a verification with a non-empty signer set; shape = (n, fallback scenario, signer kind, bitmap kind, verdict).")
 	r.Assume("BLS aggregate signatures are unforgeable: the set of real signers is the set whose shares were aggregated by the harness",
 		"group members are distinct (the nodes coordinator never selects a key twice)",
-		"fallback validation (consensus stuck on the metachain) is off: FallBackHeaderValidatorStub returns false",
+		"fallback rule (documented in fallback/headerValidator.go and core.MaxRoundsWithoutCommittedStartInEpochBlock): metachain header, start-of-epoch block, previous header resolvable from pool or storage, round - previous round >= 50 (signed); in two thirds of the cases the validator is a stub returning false",
 		"the leader is the first member of the consensus group")
 	r.MinShapes(40)
 
@@ -196,11 +220,28 @@ func main() {
 		r.Finish()
 	}
 
-	nCases := r.N(252, 6300)
-	r.Parallel(nCases, func(c *vk.Case) {
+	var specs []caseSpec
+	for rep := 0; rep < r.N(3, 12); rep++ { // large groups first: they are the long cases
+		for _, n := range []int{400, 300, 257, 63} {
+			specs = append(specs, caseSpec{n, n > 256})
+		}
+	}
+	nLarge := len(specs)
+	for i := 0; i < r.N(462, 6300); i++ {
+		specs = append(specs, caseSpec{1 + i%21, false})
+	}
+	gaps := []int64{0, 1, 40, 49, 50, 51, 1000}
+
+	r.Parallel(len(specs), func(c *vk.Case) {
 		rng := c.Rng
-		n := 1 + c.Idx%21
-		perm := rng.Perm(poolSize)
+		spec := specs[c.Idx]
+		n := spec.n
+		var perm []int
+		if n <= smallPool-5 {
+			perm = rng.Perm(smallPool)
+		} else {
+			perm = rng.Perm(poolSize)
+		}
 		members := make([]keyPair, n)
 		group := make([]string, n)
 		for i := 0; i < n; i++ {
@@ -211,8 +252,74 @@ func main() {
 		if core.GetPBFTThreshold(n) != thr {
 			r.Violation(c.Idx, "threshold-function", fmt.Sprintf("GetPBFTThreshold(%d)=%d want %d", n, core.GetPBFTThreshold(n), thr), nil)
 		}
+		realFallback := !spec.large && c.Idx >= nLarge && (c.Idx-nLarge)%3 == 0
 		meta := rng.Bool()
+		if realFallback {
+			meta = rng.Chance(5, 6)
+		}
 		hdr := mkHeader(rng, meta)
+
+		// fallback validator: stub (never) or the real one with a resolvable/unresolvable previous header
+		var fbv process.FallbackHeaderValidator = &testscommon.FallBackHeaderValidatorStub{}
+		fbApplies := false
+		scen := prevScenario{kind: "stub"}
+		startOfEpoch := false
+		if realFallback {
+			poolHdrs := map[string]data.HeaderHandler{}
+			hp := &mock.HeadersCacherStub{GetHeaderByHashCalled: func(hash []byte) (data.HeaderHandler, error) {
+				if h, ok := poolHdrs[string(hash)]; ok {
+					return h, nil
+				}
+				return nil, fmt.Errorf("missing header")
+			}}
+			store := genericMocks.NewChainStorerMock(0)
+			fbv, err = fallback.NewFallbackHeaderValidator(hp, msh, store)
+			if err != nil {
+				r.Inconclusive("cannot build the fallback header validator: " + err.Error())
+				return
+			}
+			hdr.SetRound(2000 + uint64(rng.Intn(100000)))
+			if mb, ok := hdr.(*block.MetaBlock); ok && rng.Chance(4, 5) {
+				mb.EpochStart.LastFinalizedHeaders = []block.EpochStartShardData{{ShardID: 0, HeaderHash: rng.Bytes(32), RootHash: rng.Bytes(32)}}
+				mb.Epoch = 1 + uint32(rng.Intn(5))
+				startOfEpoch = true
+			}
+			switch x := rng.Intn(10); {
+			case x < 6:
+				scen = prevScenario{kind: "gap", delta: gaps[rng.Intn(len(gaps))]}
+			case x < 9:
+				scen = prevScenario{kind: "higher", delta: -[]int64{1, 10, 50, 1000}[rng.Intn(4)]}
+			default:
+				scen = prevScenario{kind: "missing"}
+			}
+			if scen.kind != "missing" {
+				prev := &block.MetaBlock{Nonce: hdr.GetNonce() - 1, Round: uint64(int64(hdr.GetRound()) - scen.delta), RandSeed: hdr.GetPrevRandSeed(), Epoch: hdr.GetEpoch()}
+				scen.inStore = rng.Bool()
+				if scen.inStore {
+					b, _ := msh.Marshal(prev)
+					_ = store.Put(dataRetriever.MetaBlockUnit, hdr.GetPrevHash(), b)
+				} else {
+					poolHdrs[string(hdr.GetPrevHash())] = prev
+				}
+			}
+			fbApplies = meta && startOfEpoch && scen.kind != "missing" && scen.delta >= 50
+			if fbApplies {
+				r.Count("fallback_rule_holds", 1)
+			} else {
+				r.Count("fallback_rule_does_not_hold", 1)
+			}
+		}
+		thrEff := thr
+		if fbApplies {
+			thrEff = n/2 + 1
+		}
+		scenStr := scen.kind
+		if scen.kind == "gap" || scen.kind == "higher" {
+			scenStr = fmt.Sprintf("%s%d", scen.kind, scen.delta)
+		}
+		if realFallback {
+			scenStr = fmt.Sprintf("fb[%s meta=%v soe=%v]", scenStr, meta, startOfEpoch)
+		}
 
 		nc := &mock.NodesCoordinatorMock{GetValidatorsPublicKeysCalled: func(_ []byte, _ uint64, _ uint32, _ uint32) ([]string, error) {
 			g := make([]string, len(group))
@@ -221,7 +328,7 @@ func main() {
 		}}
 		hsv, err := headerCheck.NewHeaderSigVerifier(&headerCheck.ArgsHeaderSigVerifier{
 			Marshalizer: msh, Hasher: hsh, NodesCoordinator: nc, MultiSigVerifier: tmpl,
-			SingleSigVerifier: &mock.SignerMock{}, KeyGen: kg, FallbackHeaderValidator: &testscommon.FallBackHeaderValidatorStub{},
+			SingleSigVerifier: &mock.SignerMock{}, KeyGen: kg, FallbackHeaderValidator: fbv,
 		})
 		if err != nil {
 			r.Violation(c.Idx, "constructor", err.Error(), nil)
@@ -252,16 +359,17 @@ func main() {
 			if len(S) == 0 {
 				return shares[0] // a syntactically valid G1 point that nobody in the bitmap backs
 			}
-			ms, err := multisig.NewBLSMultisig(llSigner, group, members[0].sk, kg, 0)
-			if err != nil {
-				panic(err)
-			}
-			for i := range S {
-				if err := ms.StoreSignatureShare(uint16(i), shares[i]); err != nil {
-					panic(err)
+			// aggregated with the low-level signer directly, in member order, so that the harness does not
+			// depend on the bitmap handling of the multi-signer under test
+			var sigs [][]byte
+			var pks []crypto.PublicKey
+			for i := 0; i < n; i++ {
+				if S[i] {
+					sigs = append(sigs, shares[i])
+					pks = append(pks, members[i].pkObj)
 				}
 			}
-			agg, err := ms.AggregateSigs(bitmapOf(S, n))
+			agg, err := llSigner.AggregateSignatures(suite, sigs, pks)
 			if err != nil {
 				panic(err)
 			}
@@ -280,22 +388,66 @@ func main() {
 			S[0] = true
 			return S
 		}
+		pad := 0
+		if n%8 != 0 {
+			pad = 8 - n%8
+		}
 		add("honest", withLeader(rng.Range(thr, n)))
 		add("exact-thr", withLeader(thr))
 		if thr-1 >= 1 {
 			add("thr-1", withLeader(thr-1))
 		}
-		if n-1 >= thr {
-			add("no-leader", pick(rng, seq(1, n), rng.Range(thr, n-1)))
-		}
-		add("random", pick(rng, seq(0, n), rng.Range(0, n)))
-		pad := 0
-		if n%8 != 0 {
-			pad = 8 - n%8
-		}
-		if pad > 0 && thr >= 2 {
-			k := rng.Range(1, minInt(pad, thr-1))
-			add("thr-k", withLeader(thr-k))
+		if !spec.large {
+			if n-1 >= thr {
+				add("no-leader", pick(rng, seq(1, n), rng.Range(thr, n-1)))
+			}
+			add("random", pick(rng, seq(0, n), rng.Range(0, n)))
+			if pad > 0 && thr >= 2 {
+				k := rng.Range(1, minInt(pad, thr-1))
+				add("thr-k", withLeader(thr-k))
+			}
+			if realFallback {
+				add("half+1", withLeader(n/2+1))
+				if n/2 >= 1 {
+					add("half", withLeader(n/2))
+				}
+			}
+		} else {
+			high := n - 256 // members with an index >= 256
+			// (a) below-threshold signers among the members < 256; every bit >= 256 will be set on top
+			if k := thr - high; k >= 1 && k < thr {
+				S := pick(rng, seq(1, 256), k-1)
+				S[0] = true
+				add("low-only", S)
+			}
+			// (b) below-threshold set closed under index mod 256: L (bits < 256) plus every member 256+j, j in L
+			if k := thr - high; k >= 1 {
+				L := map[int]bool{0: true}
+				for _, j := range rng.Perm(256 - high) { // prefer indexes whose image 256+j is outside the group
+					if len(L) >= k {
+						break
+					}
+					L[high+j] = true
+				}
+				for _, j := range rng.Perm(high) {
+					if len(L) >= k {
+						break
+					}
+					if j > 0 {
+						L[j] = true
+					}
+				}
+				S := map[int]bool{}
+				for j := range L {
+					S[j] = true
+					if 256+j < n {
+						S[256+j] = true
+					}
+				}
+				if len(S) < thr {
+					add("mod256-closed", S)
+				}
+			}
 		}
 
 		for _, ss := range sets {
@@ -307,40 +459,67 @@ func main() {
 				vars = append(vars, variant{kind, append([]byte(nil), bm...), tampered})
 			}
 			addV("exact", exact, false)
-			if pad > 0 {
-				bm := append([]byte(nil), exact...)
-				for _, p := range rng.Perm(pad)[:rng.Range(1, pad)] {
-					bm[len(bm)-1] |= 1 << uint(n%8+p)
+			var non, in []int
+			lo := 1
+			if spec.large {
+				lo = 256
+			}
+			for i := lo; i < n; i++ {
+				if S[i] {
+					in = append(in, i)
+				} else {
+					non = append(non, i)
 				}
-				addV("pad-some", bm, false)
-				bm2 := append([]byte(nil), exact...)
-				bm2[len(bm2)-1] |= byte(0xff << uint(n%8))
-				addV("pad-all", bm2, false)
-				if len(S) < thr && thr-len(S) <= pad { // just enough padding bits to reach the threshold by popcount
+			}
+			if spec.large {
+				if ss.kind == "low-only" || ss.kind == "mod256-closed" {
+					bm := make([]byte, len(exact))
+					for i := 0; i < 256; i++ { // keep only the low bits of S ...
+						if S[i] {
+							bm[i/8] |= 1 << uint(i%8)
+						}
+					}
+					for i := 256; i < n; i++ { // ... and set every bit >= 256
+						bm[i/8] |= 1 << uint(i%8)
+					}
+					addV("low-bits+all-high-bits", bm, false)
+				}
+				if pad > 0 && len(S) < thr && thr-len(S) <= pad {
 					bm3 := append([]byte(nil), exact...)
 					for p := 0; p < thr-len(S); p++ {
 						bm3[len(bm3)-1] |= 1 << uint(n%8+p)
 					}
 					addV("pad-to-thr", bm3, false)
 				}
-			}
-			{
-				bm := append([]byte(nil), exact...)
-				bm[0] ^= 1
-				addV("leader-flip", bm, false)
-			}
-			addV("extra-zero-byte", append(append([]byte(nil), exact...), 0), false)
-			addV("extra-ff-byte", append(append([]byte(nil), exact...), 0xff), false)
-			if len(exact) > 1 {
-				addV("truncated", exact[:len(exact)-1], false)
-			}
-			var non, in []int
-			for i := 1; i < n; i++ {
-				if S[i] {
-					in = append(in, i)
-				} else {
-					non = append(non, i)
+			} else {
+				if pad > 0 {
+					bm := append([]byte(nil), exact...)
+					for _, p := range rng.Perm(pad)[:rng.Range(1, pad)] {
+						bm[len(bm)-1] |= 1 << uint(n%8+p)
+					}
+					addV("pad-some", bm, false)
+					bm2 := append([]byte(nil), exact...)
+					bm2[len(bm2)-1] |= byte(0xff << uint(n%8))
+					addV("pad-all", bm2, false)
+					if len(S) < thrEff && thrEff-len(S) <= pad { // just enough padding bits to reach the threshold by popcount
+						bm3 := append([]byte(nil), exact...)
+						for p := 0; p < thrEff-len(S); p++ {
+							bm3[len(bm3)-1] |= 1 << uint(n%8+p)
+						}
+						addV("pad-to-thr", bm3, false)
+					}
 				}
+				{
+					bm := append([]byte(nil), exact...)
+					bm[0] ^= 1
+					addV("leader-flip", bm, false)
+				}
+				addV("extra-zero-byte", append(append([]byte(nil), exact...), 0), false)
+				addV("extra-ff-byte", append(append([]byte(nil), exact...), 0xff), false)
+				if len(exact) > 1 {
+					addV("truncated", exact[:len(exact)-1], false)
+				}
+				addV("tampered", exact, true)
 			}
 			if len(non) > 0 {
 				bm := append([]byte(nil), exact...)
@@ -354,7 +533,6 @@ func main() {
 				bm[i/8] &^= 1 << uint(i%8)
 				addV("drop-signer", bm, false)
 			}
-			addV("tampered", exact, true)
 
 			for _, v := range vars {
 				h := hdr.Clone()
@@ -368,7 +546,7 @@ func main() {
 				accepted := verr == nil
 				expLen := (n + 7) / 8
 				Bg := bitsBelow(v.bitmap, n)
-				okModel := !v.tampered && sameSet(Bg, S) && len(S) >= thr && S[0]
+				okModel := !v.tampered && sameSet(Bg, S) && len(S) >= thrEff && S[0]
 				verdict := "rej"
 				if accepted {
 					verdict = "acc"
@@ -380,12 +558,19 @@ func main() {
 				if len(S) == 0 {
 					r.Trivial()
 				} else {
-					r.Shape(fmt.Sprintf("n%d %s %s %s", n, ss.kind, v.kind, verdict))
+					r.Shape(fmt.Sprintf("n%d %s %s %s %s", n, scenStr, ss.kind, v.kind, verdict))
+				}
+				if n > 256 {
+					r.Count("large_group_verifications", 1)
 				}
 				detail := map[string]interface{}{
-					"n": n, "threshold": thr, "meta_header": meta, "signers": setStr(S), "signer_kind": ss.kind,
+					"n": n, "threshold": thr, "effective_threshold": thrEff, "meta_header": meta, "signers": setStr(S), "signer_kind": ss.kind,
 					"bitmap": vk.Hex(v.bitmap), "bitmap_kind": v.kind, "tampered": v.tampered, "verdict": fmt.Sprint(verr),
-					"group_pool_indices": perm[:n],
+					"real_fallback_validator": realFallback, "start_of_epoch": startOfEpoch, "previous_header": scen.kind,
+					"round_minus_previous_round": scen.delta, "previous_in_storage": scen.inStore, "fallback_rule_holds": fbApplies,
+				}
+				if n <= 32 {
+					detail["group_pool_indices"] = perm[:n]
 				}
 				if accepted && !okModel {
 					cls := ""
@@ -394,26 +579,44 @@ func main() {
 						cls = "tampered-header"
 					case !sameSet(Bg, S):
 						cls = "non-signer-bit"
+						if n > 256 && sameSet(bitsBelow(v.bitmap, 256), bitsBelow(bitmapOf(S, n), 256)) {
+							// bitmap and real signers agree on every member < 256 and differ only above
+							cls = "large-group-bits-beyond-256"
+						}
 					case !S[0]:
 						cls = "missing-leader"
 					case len(v.bitmap) != expLen:
 						cls = "wrong-length"
-					case padBits(v.bitmap, n) > 0 && len(S)+padBits(v.bitmap, n) >= thr:
+					case padBits(v.bitmap, n) > 0 && len(S)+padBits(v.bitmap, n) >= thrEff:
 						// the acceptance is explained by padding bits counted toward the threshold:
 						// real signers < threshold <= real signers + padding bits
 						cls = "padding-bits"
+					case realFallback && !fbApplies && len(S)+padBits(v.bitmap, n) >= n/2+1:
+						// enough for the fallback threshold only (possibly helped by padding bits), although the
+						// fallback rule does not hold
+						cls = "fallback-threshold-wrongly-applied"
 					default:
 						cls = "too-few-signers"
 					}
 					r.Violation(c.Idx, "quorum-bypass class="+cls,
-						fmt.Sprintf("n=%d threshold=%d real signers {%s} (%d) bitmap %x (%s): VerifySignature == nil", n, thr, setStr(S), len(S), v.bitmap, v.kind), detail)
+						fmt.Sprintf("n=%d threshold=%d (%s) real signers {%s} (%d) bitmap %x (%s): VerifySignature == nil", n, thrEff, scenStr, abbreviate(setStr(S)), len(S), v.bitmap, v.kind), detail)
 				}
 				if !accepted && okModel && v.kind == "exact" {
-					r.Violation(c.Idx, "rejected-honest-quorum",
-						fmt.Sprintf("n=%d threshold=%d signers {%s} exact bitmap %x rejected: %v", n, thr, setStr(S), v.bitmap, verr), detail)
+					key := "rejected-honest-quorum"
+					switch {
+					case len(S) < thr:
+						key += " class=fallback"
+					case n > 256:
+						key += " class=large-group"
+					}
+					r.Violation(c.Idx, key,
+						fmt.Sprintf("n=%d threshold=%d (%s) signers {%s} exact bitmap %x rejected: %v", n, thrEff, scenStr, abbreviate(setStr(S)), v.bitmap, verr), detail)
 				}
 				if accepted && okModel {
 					r.Count("accepted_honest", 1)
+					if len(S) < thr {
+						r.Count("accepted_with_fallback_threshold", 1)
+					}
 					if len(v.bitmap) != expLen || anyBitAtOrAbove(v.bitmap, n) {
 						r.Count("accepted_full_quorum_with_noncanonical_bitmap", 1)
 					}
@@ -425,6 +628,13 @@ func main() {
 		}
 	})
 	r.Finish()
+}
+
+func abbreviate(s string) string {
+	if len(s) > 120 {
+		return s[:117] + "..."
+	}
+	return s
 }
 
 func errClass(err error) string {
